@@ -11,12 +11,15 @@
        (size of the arguments + explicitly requested size) - for `format` the bound is |format| * (1 + longest printed
        argument), because one placeholder can be repeated.  For the code AS IT IS the `_refuted` theorems exhibit
        arguments for which the faithful model reaches UB / Throw; the check replays them on the implementation.
-   What is NOT proved: anything about the ~2800 operator bodies outside that list, about the C++ library, about
+       A second list (Ops/Guards2.v: matrices, vectors, IF then ARRAY, private, getVariable / setVariable with an
+       array, markers, CONFIG select SCALAR, callExtension with an array) is proved for the code as it is.
+   What is NOT proved: anything about the ~2800 operator bodies outside those lists, about the C++ library, about
    memory exhaustion (std::bad_alloc) or about the part of the listed operators that is not argument validation
    (values are trees here: aliasing and the recursion test are C08's subject).  Those are only sampled under
    sanitizers by checks/C09.py (the registry-wide sweep is exploration, not proof). *)
 From Coq Require Import ZArith List String Bool.
 From SqfVerif Require Import Gen.RegistryFull Ops.OpsBase Ops.Guards Ops.SortOrder Ops.GuardProofs Ops.Dispatch.
+From SqfVerif Require Import Ops.Guards2 Ops.Guard2Proofs.
 Import ListNotations.
 Local Open Scope Z_scope.
 
@@ -373,6 +376,121 @@ Theorem C09_bom_refuted :
 Proof. exact bom_refuted. Qed.
 Print Assumptions C09_bom_refuted.
 
+(* ================================================================================================================ *)
+(* (b), second list: Ops/Guards2.v.  These operators needed no repair: the theorems are about the code as it is.
+   Each says: for ALL arguments the guard model ends in Ret - no undefined behaviour (no out-of-range operator[], no
+   downcast of an element to a class it is not), no exception leaving the operator (no vector::at out of range) -
+   and names the result class and the allocation. *)
+
+(* is_matrix never throws and never casts wrongly; when it says yes, the array is a rows x cols block of numbers *)
+Theorem C09_is_matrix_safe : forall arr,
+  is_matrix arr <> AThrow /\ is_matrix arr <> AUB /\ (is_matrix arr = AOk -> exists cols, matrix_shape arr cols).
+Proof. intro arr. destruct (is_matrix_defined arr) as [A B]. split; [exact A | split; [exact B | exact (is_matrix_shape arr)]]. Qed.
+Print Assumptions C09_is_matrix_safe.
+
+(* matrixTranspose: [] or, for a rows x cols block of numbers, a cols x rows array; nothing else *)
+Theorem C09_matrix_transpose_safe : forall l,
+  matrix_transpose l = Ret [] (RShape 0 0) 0 \/
+  exists cols, matrix_shape l cols /\ matrix_transpose l = Ret [] (RShape cols (zlen l)) (cols + cols * zlen l).
+Proof. exact matrix_transpose_safe. Qed.
+Print Assumptions C09_matrix_transpose_safe.
+
+(* matrixMultiply: [] or, for n x k and k x m blocks of numbers, an n x m array *)
+Theorem C09_matrix_multiply_safe : forall l r,
+  matrix_multiply l r = Ret [] (RShape 0 0) 0 \/
+  exists k m, matrix_shape l k /\ matrix_shape r m /\ k = zlen r /\
+              matrix_multiply l r = Ret [] (RShape (zlen l) m) (zlen l + zlen l * m).
+Proof. exact matrix_multiply_safe. Qed.
+Print Assumptions C09_matrix_multiply_safe.
+
+(* the is_matrix test is what keeps the bodies defined (the code before repair 46cfd3b had only a test of row 0) *)
+Theorem C09_matrix_unguarded_refuted :
+  transpose_body [VArr [VNum (FFin 0)]; VNum (FFin 0)]
+    = UB "data<T>() of an element of another type (static_pointer_cast to the wrong class)" /\
+  transpose_body [VArr [VStr []]]
+    = UB "data<T>() of an element of another type (static_pointer_cast to the wrong class)" /\
+  multiply_body [VArr [VNum (FFin 0)]] [VArr [VBool true]]
+    = UB "data<T>() of an element of another type (static_pointer_cast to the wrong class)".
+Proof. exact matrix_unguarded_refuted. Qed.
+Print Assumptions C09_matrix_unguarded_refuted.
+
+(* the vector operators: a value comes back only for three numbers (in both operands), without a diagnostic *)
+Theorem C09_vec3_unary_safe : forall k l,
+  safe (vec3_unary k l) /\ alloc_of (vec3_unary k l) <= 3 /\
+  (forall ds v al, vec3_unary k l = Ret ds v al -> v <> RNil -> zlen l = 3 /\ all_num l /\ ds = []).
+Proof. exact vec3_unary_safe. Qed.
+Print Assumptions C09_vec3_unary_safe.
+
+Theorem C09_vec3_binary_safe : forall k l r,
+  safe (vec3_binary k l r) /\ alloc_of (vec3_binary k l r) <= 3 /\
+  (forall ds v al, vec3_binary k l r = Ret ds v al -> v <> RNil -> zlen l = 3 /\ all_num l /\ zlen r = 3 /\ all_num r /\ ds = []).
+Proof. exact vec3_binary_safe. Qed.
+Print Assumptions C09_vec3_binary_safe.
+
+(* IF then ARRAY: the element that is run exists, is the one the condition selects, and is code *)
+Theorem C09_then_if_array_safe : forall cond arr,
+  safe (then_if_array cond arr) /\ res_ok (zlen arr) (then_if_array cond arr) /\ alloc_of (then_if_array cond arr) <= zlen arr /\
+  (forall ds i al, then_if_array cond arr = Ret ds (RElem i) al ->
+     i = (if cond then 0 else 1) /\ exists v, nth_error arr (Z.to_nat i) = Some v /\ is_code v = true).
+Proof. exact then_if_array_safe. Qed.
+Print Assumptions C09_then_if_array_safe.
+
+Theorem C09_private_array_safe : forall arr, safe (private_array arr) /\ alloc_of (private_array arr) <= zlen arr.
+Proof. exact private_array_safe. Qed.
+Print Assumptions C09_private_array_safe.
+
+Theorem C09_ns_getvar_safe : forall found r,
+  safe (ns_getvar found r) /\ res_ok (zlen r) (ns_getvar found r) /\ alloc_of (ns_getvar found r) <= 0.
+Proof. exact ns_getvar_safe. Qed.
+Print Assumptions C09_ns_getvar_safe.
+
+Theorem C09_ns_setvar_safe : forall r,
+  safe (ns_setvar r) /\ res_ok (zlen r) (ns_setvar r) /\ alloc_of (ns_setvar r) <= 0.
+Proof. exact ns_setvar_safe. Qed.
+Print Assumptions C09_ns_setvar_safe.
+
+(* markers: a position / size is stored only from two (three) numbers of an existing marker *)
+Theorem C09_set_marker_pos_safe : forall ex arr,
+  safe (set_marker_pos ex arr) /\ alloc_of (set_marker_pos ex arr) <= 0 /\
+  (forall ds k n al, set_marker_pos ex arr = Ret ds (RStored k n) al -> ex = true /\ 2 <= zlen arr <= 3 /\ all_num arr /\ k = zlen arr - 1).
+Proof. exact set_marker_pos_safe. Qed.
+Print Assumptions C09_set_marker_pos_safe.
+
+Theorem C09_set_marker_size_safe : forall ex arr,
+  safe (set_marker_size ex arr) /\ alloc_of (set_marker_size ex arr) <= 0 /\
+  (forall ds k n al, set_marker_size ex arr = Ret ds (RStored k n) al -> ex = true /\ zlen arr = 2 /\ all_num arr).
+Proof. exact set_marker_size_safe. Qed.
+Print Assumptions C09_set_marker_size_safe.
+
+Theorem C09_create_marker_safe : forall nullobj ex arr,
+  safe (create_marker nullobj ex arr) /\ alloc_of (create_marker nullobj ex arr) <= zlen arr.
+Proof. exact create_marker_safe. Qed.
+Print Assumptions C09_create_marker_safe.
+
+(* CONFIG select SCALAR: for every float and every class (deleted entries included) the answer is configNull or one
+   of the slots of the class *)
+Theorem C09_cfg_select_safe : forall null children f,
+  safe (cfg_select repaired null children f) /\ alloc_of (cfg_select repaired null children f) <= 0 /\
+  (forall ds id al, cfg_select repaired null children f = Ret ds (RNum id) al -> null = false /\ ds = [] /\ In id children).
+Proof. exact cfg_select_safe. Qed.
+Print Assumptions C09_cfg_select_safe.
+
+(* with plain casts (the code before repair 370eb9e) the index conversion is undefined for NaN *)
+Theorem C09_cfg_select_refuted : cfg_select as_is false [1; 2] FNan = UB_CAST.
+Proof. reflexivity. Qed.
+Print Assumptions C09_cfg_select_refuted.
+
+(* callExtension with an argument array: the extension is reached only with a string name and at most RVARGSLIMIT
+   arguments of the four printable types; the buffers are bounded whatever the array holds *)
+Theorem C09_callext_args_safe : forall hp ld rvec,
+  safe (callext_args hp ld rvec) /\
+  alloc_of (callext_args hp ld rvec) <= CALLEXTBUFFSIZE + 2 * RVARGSLIMIT + 2 /\
+  (forall ds al, callext_args hp ld rvec = Ret ds ROther al -> hp = true \/
+     (ld = true /\ exists name v1, at_ rvec 0 = Some (VStr name) /\ at_ rvec 1 = Some v1 /\
+        forall a, In a (match v1 with VArr l => l | v => [v] end) -> ext_arg_ok a = true)).
+Proof. exact callext_args_safe. Qed.
+Print Assumptions C09_callext_args_safe.
+
 (* ---------------------------------------------------------------------------------------------------------------- *)
 (* non-vacuity: the repaired models do real work on the witnesses of the refutations and on ordinary arguments *)
 Example ex_select_scalar : select_scalar repaired 3 (FFin (3 * SCALE / 2)) = Ret [] (RElem 2) 3.
@@ -404,4 +522,23 @@ Example ex_bom : bom_model repaired [239; 187; 191; 97] = BSkip 3 /\ bom_model r
 Proof. split; vm_compute; reflexivity. Qed.
 Example ex_delete_range : delete_range repaired 3 [VNum (FFin SCALE); VNum (FFin (100000000000000000000 * SCALE))]
                           = Ret [IndexOutOfRangeWeak] (RErased 1 2) 2.
+Proof. vm_compute. reflexivity. Qed.
+Example ex_transpose : matrix_transpose [VArr [VNum (FFin 0); VNum (FFin SCALE)]; VArr [VNum FNan; VNum FPInf]; VArr [VNum (FFin 0); VNum (FFin 0)]]
+                       = Ret [] (RShape 2 3) 8.
+Proof. vm_compute. reflexivity. Qed.
+Example ex_transpose_ragged : matrix_transpose [VArr [VNum (FFin 0); VNum (FFin SCALE)]; VArr [VNum FNan]] = Ret [] (RShape 0 0) 0.
+Proof. vm_compute. reflexivity. Qed.
+Example ex_multiply : matrix_multiply [VArr [VNum (FFin 0); VNum (FFin SCALE)]] [VArr [VNum (FFin 0)]; VArr [VNum (FFin 0)]] = Ret [] (RShape 1 1) 2.
+Proof. vm_compute. reflexivity. Qed.
+Example ex_multiply_unguarded_witness : matrix_multiply [VArr [VNum (FFin 0)]] [VArr [VBool true]] = Ret [] (RShape 0 0) 0.
+Proof. vm_compute. reflexivity. Qed.
+Example ex_vec3 : vec3_binary VkAt [VNum (FFin 0); VNum (FFin 0); VNum FNan] [VNum (FFin 0); VNum (FFin 0)] = Ret [ExpectedArraySizeMissmatch] RNil 0.
+Proof. vm_compute. reflexivity. Qed.
+Example ex_then_if : then_if_array false [VNum (FFin 0); VOther TCODE] = Ret [ExpectedArrayTypeMissmatchWeak] (RElem 1) 2.
+Proof. vm_compute. reflexivity. Qed.
+Example ex_create_marker : create_marker false false [VStr [109]; VArr [VNum (FFin 0); VNum (FFin 0)]] = Ret [ExpectedArrayTypeMissmatch] (RStored 0 1) 2.
+Proof. vm_compute. reflexivity. Qed.
+Example ex_cfg_select : cfg_select repaired false [5; INVALID; 7] (FFin (5 * SCALE / 2)) = Ret [] (RNum 7) 0.
+Proof. vm_compute. reflexivity. Qed.
+Example ex_callext : callext_args false false [VStr [102]; VArr [VNum (FFin 0); VOther TOBJECT]] = Ret [ExpectedArrayTypeMissmatch; ReturningErrorCode] (RNum 102) 10244.
 Proof. vm_compute. reflexivity. Qed.
